@@ -289,6 +289,28 @@ package nfa
 //@   modifies p.*, family E:int, family E:nfa.searchThread, family E:uint32, family H:internal/sparse.SparseSet, family E:nfa.captureFrame
 //@ trusted func (*PikeVM).buildCapturesFromSlots
 //@ trusted func (SkipAhead).Find
+// second protocol fact (C02/C10): inside one sweep over the thread queue the best match is only ever replaced according
+// to the rule above (isBetterMatch), and in leftmost-first mode the sweep stops at the first matching thread (thread
+// order is priority order), so a back edge is reached with the best match unchanged
+//@ spec func betterOrSame(bs0 int, be0 int, bs int, be int) bool = (bs == bs0 && be == be0) || bs0 == -1 || bs < bs0 || (bs == bs0 && be > be0)
+//@ trusted func (*NFA).IsAnchored
+//@ func (*PikeVM).searchWithSlotTableUnanchored
+//@   props C02 C10 C07
+//@   opt safety=off
+//@   opt frame=off
+//@   requires p != nil
+//@   modifies p.*
+//@   ensures result2 ==> result0 != -1
+//@   ensures !result2 ==> result0 == -1 && result1 == -1
+//@   loop 2: ghost bs0 = bestStart
+//@   loop 2: ghost be0 = bestEnd
+//@   loop 2: lemma betterOrSame(bs0, be0, bestStart, bestEnd)
+//@   loop 2: lemma !p.internalState.Longest ==> (bestStart == bs0 && bestEnd == be0)
+//@   loop 2: exit betterOrSame(bs0, be0, bestStart, bestEnd)
+//@   loop 3: ghost bs0 = bestStart
+//@   loop 3: ghost be0 = bestEnd
+//@   loop 3: lemma bestStart == bs0 && bestEnd == be0
+//@   loop 3: exit betterOrSame(bs0, be0, bestStart, bestEnd)
 //@ func (*PikeVM).searchWithSlotTableCapturesUnanchored
 //@   props C03 C07
 //@   opt safety=off
@@ -297,6 +319,15 @@ package nfa
 //@   requires p != nil
 //@   modifies p.*
 //@   loop 2: invariant -1 <= rangeindex && rangeindex < rangelen && rangelen == len(p.internalState.currSlots) && (forall j :: 0 <= j && j <= rangeindex ==> p.internalState.currSlots[j] == -1)
+//@   loop 3: ghost bs0 = bestStart
+//@   loop 3: ghost be0 = bestEnd
+//@   loop 3: lemma betterOrSame(bs0, be0, bestStart, bestEnd)
+//@   loop 3: lemma !p.internalState.Longest ==> (bestStart == bs0 && bestEnd == be0)
+//@   loop 3: exit betterOrSame(bs0, be0, bestStart, bestEnd)
+//@   loop 4: ghost bs0 = bestStart
+//@   loop 4: ghost be0 = bestEnd
+//@   loop 4: lemma bestStart == bs0 && bestEnd == be0
+//@   loop 4: exit betterOrSame(bs0, be0, bestStart, bestEnd)
 //@ func (*PikeVM).searchWithSlotTableCapturesAnchored
 //@   props C03 C07
 //@   opt safety=off
